@@ -7,7 +7,7 @@ from ..prng import Rng
 from ..seams import CLOCK, F, T, reset_world, LIB_ERRORS
 from ..core import real
 from ..oracle import (ACCEPT, REJECT, EITHER, slack3, slack_tripped_int, validsig,
-                      ed_verify, pubkey_of_seed, as_key_arg, PREFIXES, DECORATIONS)
+                      ed_verify, pubkey_of_seed, as_key_arg, PREFIXES, DECORATIONS, SUFFIXES)
 
 PID = 'C14'
 ISOLATE = True      # one forked process per run: nothing a run does to process-global
@@ -50,7 +50,7 @@ REQUIRED_PROBES = ['t==begin', 't==end-1', 't==end'] + \
      'replay_after_expiry', 'cross_lock_witness', 'cert_roundtrip',
      'honest_accept_single', 'honest_accept_chain', 'threshold_per_call',
      'second_hierarchy', 'foreign_witness_verified_under_own_root_first',
-     'default_timestamp', 'crafted_witness', 'witness_with_code']
+     'default_timestamp', 'crafted_witness', 'witness_with_code', 'witness_ending_in_return']
 NAMES = ['K', 'Kp'] + ['D%d' % i for i in range(1, 7)] + ['F%d' % i for i in range(1, 7)]
 FIELD_RANGE = {'key': (0, 32), 'begin': (32, 36), 'end': (36, 40), 'can': (40, 41),
                'sig': (41, 105)}
@@ -120,7 +120,7 @@ def gen_step(rng, cell, clocks, vname, at_us, thr, fault_free):
             'root': root, 'via': rng.choice(['global', 'global', 'additional']),
             'gthr': rng.choice([60, 0, 1, 10 ** 6]), 'default_t': rng.chance(1, 8),
             'keys': rng.choice(['bytes', 'bytes', 'object']), 'prefix': rng.choice(PREFIXES),
-            'cert_as': rng.choice(['bytes', 'object']), 'decor': rng.choice(DECORATIONS),
+            'cert_as': rng.choice(['bytes', 'object']), 'decor': rng.choice(DECORATIONS), 'suffix': rng.choice(SUFFIXES),
             't': t, 'thr': thr, 'chain': chain, 'signer': '%s%d' % (pre, ln),
             'allowed': rng.choice(['00', '00', '01', '03', '80', 'c1']), 'flag': '00',
             'sigfields': {'sigfield%d' % k: rng.bytes(rng.choice([1, 16, 64, 64, 255, 256, 300])).hex()
@@ -367,12 +367,19 @@ def execute(plan, run):
         if step.get('decor'):
             run.probe('witness_with_code')
             w = T.Script('# decorated witness #', T.compile_script(step['decor']) + w.bytes)
+        if step.get('suffix'):
+            run.probe('witness_ending_in_return')
+            w = T.Script('# witness + return #', w.bytes + T.compile_script(step['suffix']))
+            items = items + ([b'\xff'] if step['suffix'].startswith('true') else
+                             [b'\x00'] if step['suffix'].startswith('false') else [])
         cache_in = dict(sf) if step.get('default_t') else {**sf, 'timestamp': step['t']}
         CLOCK.latency_us = kn['latency_us']
         CLOCK.begin_call(step['validator'], step['faults'])
         try:
-            if step.get('via') == 'additional':
-                # the verifier supplies its slack threshold per call
+            if step.get('via') == 'additional' and not step.get('suffix'):
+                # the verifier supplies its slack threshold per call (never for a witness
+                # ending in OP_RETURN: concatenating it with the lock would be the
+                # concatenation attack run_auth_scripts exists to prevent)
                 run.probe('threshold_per_call')
                 # ... while the process-wide default says something else
                 F.flags['ts_threshold'] = step.get('gthr', 60)
@@ -399,6 +406,8 @@ def execute(plan, run):
         t = step['t']
         mdl, why = model(step['lock'], items, root_pk, t, sf, int(step['allowed'], 16),
                          reads, step['thr'])
+        if step.get('suffix') and mdl == ACCEPT:
+            mdl = EITHER        # soundness only (see oracle.SUFFIXES)
 
         def sig_fn(o, m, step=step, why=why, reads=reads, t=t):
             if o.startswith('BAD'):
@@ -411,7 +420,7 @@ def execute(plan, run):
                           'attack': atk, 'why': why, 'lock': step['lock'],
                           'witness': step['witness'], 'signer': step['signer']})
         # who-level oracle for honest attempts: completeness of the builders
-        honest = (not atk and step['witness'] == step['lock'] and
+        honest = (not atk and not step.get('suffix') and step['witness'] == step['lock'] and
                   step['signer'] == '%s%d' % (pre, ln) and
                   all(c['can'] for c in step['chain'][:-1]) and
                   all(c['begin'] <= t < c['end'] for c in step['chain']) and
@@ -427,7 +436,7 @@ def execute(plan, run):
                       step=i, detail={'step': step, 'reads': reads})
             if obs == ACCEPT:
                 run.probe('honest_accept_' + step['lock'])
-        elif obs == ACCEPT and not atk:
+        elif obs == ACCEPT and not atk and not step.get('suffix'):
             # anything accepted without transport tampering must be an honest chain
             # whose leases all contain t (F3 is the recorded exception, via `lease`)
             inwin = all(c['begin'] <= t < c['end'] for c in step['chain'])
